@@ -1449,7 +1449,8 @@ def star_shadowing_rule(cx, rep, rid):
 
 # ---------------------------------------------------------------------------------------------------------------------
 def set_once_rule(cx, rep, rid):
-    """A *set-once slot* is a field with a setter that panics when the slot is already filled (today: the default export
+    """A *set-once slot* is a field with a setter that refuses a second value - it panics, or (since the repair of the
+    second-default-export panic) records the refusal in a sibling field and leaves - when the slot is already filled (today: the default export
     of a module).  *Keyed wrappers* reach the setter when their key parameter equals a reserved literal (`insert_type`,
     `insert_value`, `insert_unknown` for the key "default").  Decided: on no syntactic path through ONE processed item
     (one loop iteration / one visitor call) can the setter be reached twice - counting direct setter calls and calls
@@ -1471,21 +1472,58 @@ def set_once_rule(cx, rep, rid):
     # ---- setters, by role: a function that assigns a field and panics under a test of that same field -
     # `if self.f.is_some() { panic } .. self.f = ..`, and the spellings benign patches gave it: `assert!(self.f.is_none())`
     # (b62), `match self.f { Some(_) => panic!(..), None => self.f = Some(v) }` (b35)
+    # Since fix ee-default (the second default export is an error of the module, not a panic) the refusal is also read
+    # in its non-panicking spelling: the branch taken when the slot is filled does not assign the slot and records the
+    # refusal in ANOTHER field of the same type (`self.duplicate_default_export = true; return`).
     setters = {}
+    marks = {}      # setter gid -> fields that record a refusal
     for g, t in trees.items():
         guarded = set()
         for n in walk(t["body"]):
-            if n["k"] == "If" and (has_panic(n["then"]) or (n.get("else") and has_panic(n["else"]))):
+            if n["k"] == "If":
                 test = n["cond"]
-            elif n["k"] == "Match" and any(has_panic(a["body"]) for a in n["arms"]):
+                branches = [n["then"]] + ([n["else"]] if n.get("else") else [])
+            elif n["k"] == "Match":
                 test = n["scrut"]
+                branches = [a["body"] for a in n["arms"]]
             else:
                 continue
-            guarded |= {(c.get("adt"), c["name"]) for c in walk(test) if c["k"] == "Field"}
+            tested = {(c.get("adt"), c["name"]) for c in walk(test) if c["k"] == "Field"}
+
+            def refuses(b_):
+                if has_panic(b_):
+                    return True
+                asg = {(x["l"].get("adt"), x["l"]["name"]) for x in walk(b_) if x["k"] == "Assign" and x["l"]["k"] == "Field"}
+                return bool(asg) and not (asg & tested) and any(a_[0] in {t_[0] for t_ in tested} for a_ in asg)
+            if tested and any(refuses(b_) for b_ in branches):
+                guarded |= tested
+                for b_ in branches:
+                    if refuses(b_) and not has_panic(b_):
+                        marks.setdefault(g, set()).update(
+                            (x["l"].get("adt"), x["l"]["name"]) for x in walk(b_) if x["k"] == "Assign" and x["l"]["k"] == "Field")
         for n in walk(t["body"]):
             if n["k"] == "Assign" and n["l"]["k"] == "Field" and (n["l"].get("adt"), n["l"]["name"]) in guarded:
                 setters[g] = "%s.%s" % (n["l"].get("adt"), n["l"]["name"])
-    rep.floor(rid, "set-once setters (panic when the slot is filled)", len(setters), 1)
+    rep.floor(rid, "set-once setters (refuse a second value when the slot is filled)", len(setters), 1)
+
+    # ---- a refusal that does not panic must not be lost: the field that records it is tested somewhere, and the branch
+    # taken when it is set leaves the function (`if symbol_exports.duplicate_default_export { return Err(..) }`) - else
+    # the second value is dropped silently and the module is compiled as if it had been valid (guards fix 76e8a71)
+    for g in sorted(marks):
+        if g not in setters:
+            continue
+        for (adt, fld) in sorted(marks[g], key=str):
+            readers = []
+            for g2, t2 in trees.items():
+                for n in walk(t2["body"]):
+                    if n["k"] == "If" and any(c["k"] == "Field" and c["name"] == fld and c.get("adt") == adt for c in walk(n["cond"])):
+                        bs = [n["then"]] + ([n["else"]] if n.get("else") else [])
+                        if any(x["k"] == "Ret" or (x["k"] == "Call" and "panicking" in (x.get("callee") or "")) for b_ in bs for x in walk(b_)):
+                            readers.append(g2)
+            rep.ob(rid, "%s/refusal-mark-consulted/%s" % (g.rsplit("::", 1)[-1], fld), bool(readers),
+                   "the setter %s records a refused second value in `%s.%s`, and no function tests that field and leaves when it is set: "
+                   "the refusal is lost and the module is compiled as if it were valid" % (g, adt, fld),
+                   F.fns[g].loc(), sample={"fn": g, "readers": sorted(readers)})
 
     # ---- forwarding helpers: functions that call a setter on every path (`set_renamed_default_export(export)` of
     # b49 / b62 / b81 wraps the payload and hands it to the setter); calling one IS reaching the setter
